@@ -294,7 +294,7 @@ func (s *c17State) redelivForwarder(group, n int, ackBad bool, buffer int64) err
 	}
 	var todo []pending
 	for i := 0; i < n; i++ {
-		m, _ := s.genMessage(fmt.Sprintf("rdin-%d-%d%s", group, i, s.randString(3)), true, "", false)
+		m, _ := s.genMessage(fmt.Sprintf("rdin-%d-%d|%s", group, i, s.randString(3)), true, "", false)
 		c := &c17Redeliv{ID: fmt.Sprintf("rdf%d-%d", group, i), Comp: "forwarder", AckBad: ackBad, Src: s.in.ID("fw_src"),
 			Beh: s.failuresThenAccept(), RK: s.in.ID(requeuer.RetriesKey), acked: make(chan struct{})}
 		cases = append(cases, c)
@@ -403,7 +403,7 @@ func (s *c17State) chainGroup(group, n int) error {
 	fp := forwarder.NewPublisher(src, forwarder.PublisherConfig{ForwarderTopic: "chain_in"})
 	var wg sync.WaitGroup
 	for i := 0; i < n; i++ {
-		m, _ := s.genMessage(fmt.Sprintf("chain-%d-%d%s", group, i, s.randString(3)), true, "", false)
+		m, _ := s.genMessage(fmt.Sprintf("chain-%d-%d|%s", group, i, s.randString(3)), true, "", false)
 		t := topics[s.rng.Intn(len(topics))]
 		c := &c17Chain{ID: fmt.Sprintf("ch%d-%d", group, i), Topic: s.in.ID(t), Msg: s.snap(m), Nacks: s.rng.Intn(4), Got: []c17Orig{}, Order: []string{}}
 		cases = append(cases, c)
